@@ -36,3 +36,12 @@ Print Assumptions C16_first_yields_prefix_in_arrival_order_partial.
 From UsimGen Require SourcePins Pin_C16.
 Theorem C16_modelled_source_unchanged : forallb SourcePins.pin_ok Pin_C16.pins = true.
 Proof. exact Pin_C16.src_unchanged. Qed.
+
+(** ** known finding D11: a contestant failing while the consumer is suspended in its own loop body makes the cancel
+    signal of first()'s internal scope escape; witness on the faithful machine *)
+From Coq Require Import ZArith.
+From Usim Require Refuted.
+Theorem C16_first_failure_is_contained_refuted :
+  exists s, In [2; 91; 21; 2]%Z (Scenario.run_scenario 6000 200000 s).
+Proof. exact Refuted.internal_signal_escapes_refuted. Qed.
+Print Assumptions C16_first_failure_is_contained_refuted.
